@@ -21,7 +21,7 @@ KINDS = {
 }
 EXTRA_KINDS = {"sqlite_b1": ("sqlite", "sqlite://out.db?batch_size=1"), "sqlite_b2": ("sqlite", "sqlite://out.db?batch_size=2"), "sqlite_b3": ("sqlite", "sqlite://out.db?batch_size=3"),
                "streambz2": ("streamgz", "out.records.bz2"), "streamlz4": ("streamgz", "out.records.lz4"), "streamzst": ("streamgz", "out.records.zst"),
-               "jsongz": ("json", "out.json.gz"), "jsonl": ("json", "out.jsonl")}
+               "jsongz": ("json", "jsonfile://out.json.gz"), "jsonl": ("json", "out.jsonl")}
 
 
 def D():
@@ -38,11 +38,18 @@ def decompress(path, blob):
     if path.endswith(".lz4"):
         import lz4.frame
 
-        return lz4.frame.decompress(blob)
+        out = b""
+        while blob:          # a flush in the middle ends one frame and starts the next
+            dec = lz4.frame.LZ4FrameDecompressor()
+            out += dec.decompress(blob)
+            if not dec.eof:
+                raise ValueError("truncated lz4 frame")
+            blob = dec.unused_data
+        return out
     if path.endswith((".zst", ".zstd")):
         import zstandard
 
-        return zstandard.ZstdDecompressor().decompressobj().decompress(blob)
+        return zstandard.ZstdDecompressor().stream_reader(io.BytesIO(blob), read_across_frames=True).read()
     return blob
 
 
@@ -112,7 +119,7 @@ def observe_after(kind, url, tmp, nwritten):
         a["indep_ok"], a["err"] = False, "indep:" + type(e).__name__ + ":" + str(e)[:60]
     if a["lib_checked"]:
         try:
-            a["lib"] = lib_read(("sqlite://" if kind == "sqlite" else "") + path)
+            a["lib"] = lib_read((url.split("://")[0] + "://" if "://" in url else "") + path)
         except Exception as e:
             a["lib_ok"], a["err"] = False, "lib:" + type(e).__name__ + ":" + str(e)[:60]
     return a
